@@ -226,8 +226,8 @@ def dictify(R, t, p):
     if not isinstance(t, list):
         return t
     kids = [dictify(R, x, p) for x in t]
-    if R.random() < p and len(kids) <= 3:
-        return {"abc"[i]: k for i, k in enumerate(kids)}
+    if R.random() < p and len(kids) <= 5:
+        return {"abcde"[i]: k for i, k in enumerate(kids)}
     return kids
 
 
@@ -284,6 +284,12 @@ def run_shard(spec, rec):
                       ("$[?@ == @][*, *]", [{"a": 1, "b": 2}]), ("$[?count(@.*) > 1].*", {"k": {"a": 1, "b": 2}, "l": [1]})):
         one(rec, R, nd, det, abn, orders, text, doc, spec["max_leaves"], exhaustive=True)
         rec.feat("small:battery")
+    # battery: objects with 4 and 5 members (24 / 120 member orders: every one of them, not only rotations or reversals)
+    for text, doc in (("$.*", {"a": 1, "b": 2, "c": 3, "d": 4}), ("$[*]", {"a": 1, "b": [2], "c": {"x": 3}, "d": 4, "e": 5}), ("$[?@]", {"a": 1, "b": 2, "c": 3, "d": 4}),
+                      ("$..*", {"a": 1, "b": 2, "c": 3, "d": 4}), ("$.k[?@ > 0]", {"k": {"a": 1, "b": 2, "c": 3, "d": 4, "e": 5}}), ("$[0].*", [{"a": 1, "b": 2, "c": 3, "d": 4}]),
+                      ("$..[?@]", {"a": 1, "b": 2, "c": 3, "d": 4}), ("$.*", {"d": 1, "c": 2, "b": 3, "a": 4, "": 5})):
+        one(rec, R, nd, det, abn, orders, text, doc, spec["max_leaves"], exhaustive=True)
+        rec.feat("small:wide-object-battery")
     for i in range(spec["small"]):
         if i % 2 == 0:
             text = R.choice(["$..[*]", "$..*", "$..[0]", "$..[?@]", "$[*]..[*]", "$..[*]..[0]", "$..[?@ == $[0][0]]", "$..[?$[1]]"])
